@@ -211,7 +211,9 @@ export class RangeListManager {
           if (oldSharedKeyMap?.[k] !== undefined || newSharedKeyMap?.[k] !== undefined) {
             updatePathTree[i] = true
           } else {
-            const subTree = (oriUpdatePathTree as { [s: string]: UpdatePathTreeNode })[i] as
+            // the original tree is keyed by the item index, which is the field name for object lists
+            const index = indexes === null ? i : indexes[i]!
+            const subTree = (oriUpdatePathTree as { [s: string]: UpdatePathTreeNode })[index] as
               | { [s: string]: UpdatePathTreeNode }
               | undefined
               | true
@@ -226,7 +228,17 @@ export class RangeListManager {
         }
         allowFastComparison = false
       } else {
-        updatePathTree = oriUpdatePathTree
+        if (indexes === null) {
+          updatePathTree = oriUpdatePathTree
+        } else {
+          // the comparison below looks items up by position,
+          // but the tree of an object list is keyed by its field names
+          updatePathTree = new Array(newRawKeys.length)
+          for (let i = 0; i < newRawKeys.length; i += 1) {
+            const subTree = (oriUpdatePathTree as { [s: string]: UpdatePathTreeNode })[indexes[i]!]
+            if (subTree !== undefined) updatePathTree[i] = subTree
+          }
+        }
         allowFastComparison = false
       }
     }
